@@ -149,7 +149,21 @@ def prop_C07(run):
     run.rules_run += ["TAB-idx (case normalisation, token classes, whitespace skipping)", "MATCH shape of match_with_rule / match_instr selection"]
 
 
+def prop_C13(run):
+    import rules_unit, rules_err
+    nc, ns = rules_unit.unit(run)
+    run.floor("UNIT", "seeded value classes", nc, 10)
+    rules_unit.unit2(run)
+    rules_unit.unit3(run)
+    rules_unit.span_shape(run)
+    reach = reach_roots(run)
+    rules_err.pair(run, reach)
+    run.rules_run += ["UNIT byte offsets and character indices never meet in one value (union-find over usize values, interprocedural)",
+                      "UNIT2 token lengths come from the character walker, never a literal", "UNIT3 who may construct spans from offsets", "PAIR diagnostic parent stack balanced"]
+
+
 PROPS = {
+    "C13": prop_C13,
     "C08": prop_C08,
     "C07": prop_C07,
     "C02": prop_C02,
